@@ -27,6 +27,7 @@ ASSUMPTIONS = [
     "KLpq has no documented meaning for two-dimensional sample shapes: raising is accepted there; a returned number must equal one of the natural definitions (weights normalised over all samples or per row)",
 ]
 BUDGET = {"quick": 80, "thorough": 800}
+ROUNDS = {"thorough": 8}
 FLOORS = {"posterior_identities": {"quick": 3000, "thorough": 30000}, "off_posterior_recomputations": {"quick": 800, "thorough": 8000}, "pairing_checks": {"quick": 3000, "thorough": 30000},
           "families": 7, "objectives": 6, "driver_iterations": 20}
 
